@@ -14,7 +14,7 @@ import os
 import shutil
 
 from mon import refbufr as R
-from mon import handover, midscan
+from mon import handover, midscan, forms
 from mon import nested
 from mon.compare import td_of, opsig
 from mon.gen import cases
@@ -272,6 +272,9 @@ def check_message(ctx, m, enc, spec, sigctx, ids, want_encode=True):
                                                         sigctx_f if name == 'nested-text' else sigctx),
                         '%s converted back to flat differs from the flat JSON at %r: %r vs %r'
                         % (name, d[0], d[1], d[2]), spec, expected=d[2], observed=d[1])
+    # ---- the text renderings as another platform / editor would hold them (line ends, final newline, blanks, byte-order mark)
+    if ctx.counters['conversions_compared'] % 12 < 3:
+        forms.text_forms(ctx, ft, nt, 'convert', spec)
     # ---- what a caller was given stays his: the nested view handed to the converter still shows what it showed, and a
     # conversion repeated after the caller edited the result of the first one (in place, as deep as it goes) gives the first result
     if ctx.counters['conversions_compared'] % 9 < 3 or spec.get('origin') == 'shape':
@@ -393,6 +396,14 @@ def cli_roundtrip(ctx, b, spec, scratch, tag, prefix=()):
         with open(dst, 'rb') as f:
             outs[name] = f.read()
     ctx.count('cli_roundtrips')
+    if not prefix:
+        texts = {}
+        for flags in ((), ('-j',), ('-a',), ('-a', '-j')):
+            nm = ''.join(flags) or 'flat-text'
+            with open(os.path.join(scratch, 'txt_%s_%s' % (tag, nm))) as f:
+                texts[flags] = f.read()
+        if len(set(outs.values())) == 1:
+            forms.cli_encode_forms(ctx, scratch, tag, texts, outs['-j'], 'cli', spec)
     if prefix:
         ctx.count('cli_roundtrips_with_tables_root_option')
         # (a compressed reference message may use wider increments than the encoder would choose: bytes are only
